@@ -468,7 +468,43 @@ def r7_nonce_layout(ctx):
             )
 
 
+def r8_utc_timestamp(ctx, rule='C14.R8'):
+    corpus = ctx.corpus
+    snap = corpus.func('repository', 'Repository.snapshot')
+    ok = False
+    why = "no 'utc_timestamp' entry"
+    for d in walk_local(snap.node):
+        if isinstance(d, ast.Dict):
+            for k, v in zip(d.keys, d.values):
+                if isinstance(k, ast.Constant) and k.value == 'utc_timestamp':
+                    e = v
+                    if isinstance(e, ast.Call) and dotted(e.func) == 'str' and e.args:
+                        e = e.args[0]
+                    if isinstance(e, ast.Name):
+                        ds = [a.value for a in walk_local(snap.node) if isinstance(a, ast.Assign) and any(isinstance(t, ast.Name) and t.id == e.id for t in a.targets)]
+                        e = ds[0] if len(ds) == 1 else e
+                    if isinstance(e, ast.Call):
+                        fn_ = dotted(e.func) or ''
+                        if fn_.endswith('utcnow') and not e.args:
+                            ok = True
+                        elif fn_.endswith('.now') and e.args and 'utc' in src(e.args[0]).lower():
+                            ok = False
+                            why = 'an aware UTC datetime changes the stored text form (+00:00 suffix): readers compare the strings'
+                        else:
+                            why = f'the timestamp is `{src(e, 50)}` (local time when the zone is not UTC)'
+                    ok = ok and isinstance(v, ast.Call) and dotted(v.func) == 'str'
+    ctx.check(
+        ok,
+        rule,
+        f'{func_label(snap)}|timestamp-is-utc',
+        loc(snap, snap.node),
+        "snapshot data carries 'utc_timestamp' = str(datetime.utcnow())",
+        f"'utc_timestamp' is not the naive UTC time in str() form: {why} - version order across time zones and the documented field meaning break",
+    )
+
+
 def run(ctx):
+    r8_utc_timestamp(ctx)
     r1_derivations(ctx)
     r2_key_tables(ctx)
     r3_bytes_tagging(ctx)
